@@ -147,9 +147,11 @@ Txt(s) == [s |-> s, n |-> 0, b |-> FALSE, set |-> <<>>]
 VOSpecs ==
    {VSpec("str", op, Txt(s)) : op \in {"eq", "ne"}, s \in {T1, T2, T3}}
    \cup {VSpec("num", op, [V0 EXCEPT !.n = n]) : op \in {"eq", "ge", "le", "ne"}, n \in {0 - 5, 10, 15, 20}}
+   \cup {VSpec("num2", op, [V0 EXCEPT !.n = n]) : op \in {"eq", "ge", "le", "ne"}, n \in {0 - 9, 20, 21, 31, 40}}
    \cup {VSpec("bool", op, [V0 EXCEPT !.b = x]) : op \in {"eq", "ne"}, x \in BOOLEAN}
    \cup {VSpec("set", "contains", [V0 EXCEPT !.set = q]) : q \in {<<>>, <<T1>>, <<T1, T2>>}}
    \cup {Junk}
+NumSetSpecs == {VSpec("numset", "contains", [V0 EXCEPT !.set = q]) : q \in {<<10>>, <<10, 20>>, <<0 - 5, 15>>}}
 VerSpecs == {VSpec("ver", op, [V0 EXCEPT !.set = q]) : op \in {"eq", "ge", "le"}, q \in {<<3, 12>>, <<3>>, <<3, 12, 1>>}}
 VOTexts == {T1, T2, <<>>, <<"1","0">>, <<"2","0">>, <<"1","5">>, <<"-","5">>, <<"0","1","0">>, <<"2","x">>, <<"-">>,
             <<"1",".","5">>, <<"3",".","1","2">>, <<"3">>, <<"3",".","1","3">>, <<"3",".">>, <<"3",".","x">>,
@@ -157,14 +159,16 @@ VOTexts == {T1, T2, <<>>, <<"1","0">>, <<"2","0">>, <<"1","5">>, <<"-","5">>, <<
             <<"f","a","l","s","e">>, <<"m","a","y","b","e">>, <<"1">>, <<"0">>}
 VOLaw == ph = "start" => /\ \A sp \in VOSpecs : \A tv \in VOTexts : AlgMatches(sp, tv) = DefMatches(sp, tv)
                          /\ \A sp \in VerSpecs : \A tv \in VOTexts : AlgMatches(sp, tv) = DefMatches(sp, tv)
+                         /\ \A sp \in NumSetSpecs : \A tv \in VOTexts : AlgMatches(sp, tv) = DefMatches(sp, tv)
                          /\ \A sp \in VerSpecs : /\ AlgMatches(sp, <<"3",".","1","2">>) = (sp.set = <<3, 12>> \/ (sp.op = "ge" /\ sp.set = <<3, 12, 1>>) \/ (sp.op = "le" /\ sp.set = <<3>>))
 \* malformed values never match, whatever the operator
-Malformed(sp, tv) == \/ sp.kind = "num" /\ ~IsIntText(tv)
+Malformed(sp, tv) == \/ sp.kind \in {"num", "num2", "numset"} /\ ~IsIntText(tv)
                      \/ sp.kind = "bool" /\ Lower(tv) \notin TrueTexts \cup FalseTexts
                      \/ sp.kind = "ver" /\ ~IsVerText(tv)
 MalformedNeverMatches == ph = "start" =>
    /\ \A sp \in VOSpecs : \A tv \in VOTexts : Malformed(sp, tv) => ~AlgMatches(sp, tv)
    /\ \A sp \in VerSpecs : \A tv \in VOTexts : Malformed(sp, tv) => ~AlgMatches(sp, tv)
+   /\ \A sp \in NumSetSpecs : \A tv \in VOTexts : Malformed(sp, tv) => ~AlgMatches(sp, tv)
 
 EmitPool == ph = "start" =>
    PrintT(<<"POOL", ToJson([pool |-> [i \in 1..PN |-> [k |-> Pool[i].k, pre |-> Pool[i].pre, cat |-> Pool[i].cat,
